@@ -92,10 +92,32 @@ def strip_comments(txt):
     return ''.join(out)
 
 
+def import_closure(rel):
+    """every file of the development that `rel` imports, directly or not (`From PV Require Import/Export A.B ...`), in
+    dependency-first order, `rel` itself excluded: the freshness test and the lemma count of a property cover the whole cone of
+    its Props file, whatever the hand-written DEPS lists say"""
+    seen, order = set(), []
+
+    def visit(r):
+        path = os.path.join(COQ, r)
+        if r in seen or not os.path.exists(path):
+            return
+        seen.add(r)
+        src = strip_comments(open(path).read())
+        for m in re.finditer(r'From\s+PV\s+Require\s+(?:Import|Export)\s+(.*?)\.(?=\s|$)', src, re.S):
+            for mod in m.group(1).split():
+                if re.fullmatch(r'[A-Za-z_]\w*\.[A-Za-z_]\w*', mod):
+                    visit(mod.replace('.', '/') + '.v')
+        order.append(r)
+    visit(rel)
+    return [r for r in order if r != rel]
+
+
 def proof_status(pid, deps):
     """Compile Props/<pid>.v (its dependencies must have been built) and read Print Assumptions.
 
     Returns dict(ok, theorems=[(name, closed, assumptions)], lemmas=int, error=str|None)."""
+    deps = list(deps) + [d for d in import_closure('Props/%s.v' % pid) if d not in deps]
     res = {'ok': False, 'theorems': [], 'lemmas': 0, 'error': None, 'deps': deps}
     for d in deps:
         if not vo_fresh(d):
